@@ -37,11 +37,12 @@ TIES = {  # tie lemma -> the Go function(s) it ties (lean/GeomV/C18/Tie.lean)
     "tie_processNodeNoCopy": "processNodeNoCopy", "tie_processWayNoCopy": "processWayNoCopy",
     "tie_processRelationNoCopy": "processRelationNoCopy",
     "Filter_nf": "Filter (loop structure)", "tie_Filter": "Filter (loop)",
+    "tie_processNode": "processNode", "tie_processWay": "processWay", "tie_processRelation": "processRelation",
 }
 SEQ = ["bigStep_step", "finishW_st", "runPass_seq"]
 DUP = ["C18_duplicates", "C18_duplicates_schedule_dependent", "closedDB_sound", "closed_of_closedD", "closedD_of_closed"]
 SRC = ["C18_provided_keeps_src", "C18_check_src", "C18_filter_src"]
-LOOP = ["procSeq_flag", "passBody_spec", "whileS_loop"]
+LOOP = ["procSeq_flag", "passBody_spec", "whileS_loop", "tie_worker", "worker_step", "keepShapeS_bounds", "keepShapeS_tags", "keepShapeS_all"]
 
 
 def t1(chk, gobin):
@@ -75,11 +76,11 @@ def t1(chk, gobin):
         if p.returncode == 3:
             drop("T1 tie: Go function(s) outside the translatable subset: " + " | ".join(p.stderr.strip().splitlines())[:900])
             return
-        b = subprocess.run(["lake", "build", T_, T_ + "Filter", T_ + "Loop"], cwd=vcheck.LEAN, stdout=subprocess.PIPE, stderr=subprocess.STDOUT, text=True)
+        b = subprocess.run(["lake", "build", T_, T_ + "Filter", T_ + "Loop", T_ + "Copy"], cwd=vcheck.LEAN, stdout=subprocess.PIPE, stderr=subprocess.STDOUT, text=True)
     if b.returncode == 0:
         return
     open(os.path.join(chk.rundir, "tie.log"), "w").write(b.stdout)
-    errs = re.findall(r"error: (?:\./)?GeomV/C18/(Gen|TieLoop|TieFilter|Tie)\.lean:(\d+):\d+: (.*)", b.stdout)
+    errs = re.findall(r"error: (?:\./)?GeomV/C18/(Gen|TieLoop|TieFilter|TieCopy|Tie)\.lean:(\d+):\d+: (.*)", b.stdout)
     if any(f == "Gen" for f, _, _ in errs) or not errs:
         drop("T1 tie: the regenerated Gen.lean does not elaborate: " + " | ".join(m for f, _, m in errs if f == "Gen")[:600]
              + ("" if errs else b.stdout[-600:]))
@@ -134,7 +135,7 @@ def post(chk, pairs, stats):
 
 CFG = {
     "id": "C18",
-    "lean_modules": ["GeomV.C18.Proofs", "GeomV.C18.ProofsObs", "GeomV.C18.Seq", "GeomV.C18.Dup", "GeomV.C18.Tie", "GeomV.C18.TieFilter", "GeomV.C18.TieLoop"],
+    "lean_modules": ["GeomV.C18.Proofs", "GeomV.C18.ProofsObs", "GeomV.C18.Seq", "GeomV.C18.Dup", "GeomV.C18.Tie", "GeomV.C18.TieFilter", "GeomV.C18.TieLoop", "GeomV.C18.TieCopy"],
     "lean_dirs": ["C18"],
     "exe": "geomv_c18",
     "go_cmd": "c18",
@@ -164,8 +165,9 @@ CFG = {
         "written by a hand-made encoder in harness/cmd/c18/pbf.go: dense nodes, ways, relations, raw/zlib blobs, 1/3/8000 objects per block, two granularities)",
         "harness/cmd/c18 + lean driver + lib/vcheck.py transport inputs faithfully",
         "T1: harness/cmd/c18/t1.go (go/ast, statement level, subset in its header) regenerates lean/GeomV/C18/Gen.lean from encoding/osm/{keep,check,extract}.go, "
-        "bounds.go, point.go of the tree under test on every run (16 functions); Tie.lean/TieFilter.lean prove them equal to the model / the Spec (20 tie lemmas, "
-        "C18_provided_keeps_src, C18_check_src). Trusted in T1: the translator and the meaning lean/GeomV/C18/GenLib.lean gives to its vocabulary (Ctl over the assigned "
+        "bounds.go, point.go of the tree under test on every run (19 functions: since phase 4 also the copying processNode/Way/Relation); Tie.lean/TieFilter.lean/TieLoop.lean/TieCopy.lean "
+        "prove them equal to the model / the Spec (25 tie lemmas, C18_provided_keeps_src, C18_check_src, C18_filter_src: the regenerated LOOP of Filter = filterRun; tie_worker: the regenerated "
+        "processX = a worker of the interleaving model left alone with one object). copyNode/Way/Relation are GenLib vocabulary (hand-written; tied by the call skeleton and the exact stored-object comparison). Trusted in T1: the translator and the meaning lean/GeomV/C18/GenLib.lean gives to its vocabulary (Ctl over the assigned "
         "variables, rangeS/whileS, Go maps as association lists ranged in an oracle order, locks dropped = sequential meaning, integer-grid coordinates, stored pointers non-nil). "
         "A function outside the subset or a failing tie lemma is reported with the Go function's name",
     ],
